@@ -3,17 +3,18 @@
 # applies the patch to a scratch worktree of /repo (never to /repo itself), runs the
 # named checks against it with VERIF_REPO, prints the verdict lines, removes the worktree.
 patch=$(realpath "$1"); budget=$2; shift 2
+V="$(dirname "$(readlink -f "$0")")/.."
 wt=$(mktemp -d /tmp/mut-XXXXXX); rmdir $wt
 git -C /repo worktree add -q --detach $wt HEAD || exit 3
 if ! git -C $wt apply "$patch"; then echo "PATCH-DOES-NOT-APPLY"; git -C /repo worktree remove --force $wt; exit 3; fi
 for P in "$@"; do
-  out=$(cd /verif && VERIF_REPO=$wt VERIF_EVIDENCE_DIR=$wt/.evidence VERIF_REPLAY_DIR=$wt/.replays timeout 900 ./check $P --budget $budget 2>&1)
+  out=$(cd "$V" && VERIF_REPO=$wt VERIF_EVIDENCE_DIR=$wt/.evidence VERIF_REPLAY_DIR=$wt/.replays timeout 900 ./check $P --budget $budget 2>&1)
   rc=$?
   echo "== $P rc=$rc"
   echo "$out" | grep -E "^violation class|^VIOLATION|^KNOWN|HARNESS|quick:" | cut -c1-300 | head -8
   # every replay file must reproduce its violation exactly, in a fresh process
   for r in $(echo "$out" | sed -n 's/^VIOLATION property=[A-Z0-9]* replay=//p' | head -3); do
-    rout=$(cd /verif && VERIF_REPO=$wt timeout 300 ./check $P --replay "$r" 2>&1)
+    rout=$(cd "$V" && VERIF_REPO=$wt timeout 300 ./check $P --replay "$r" 2>&1)
     if echo "$rout" | grep -q "(identical to recorded run)"; then echo "REPLAY-OK $(basename $r)"; else echo "REPLAY-DIFFERS $(basename $r)"; echo "$rout" | head -3; fi
   done
 done
